@@ -241,17 +241,22 @@ PredictCore(scn) ==
               !.wadapter = IF pass THEN "none" ELSE RespAdapter(scn, srv).kind]
         bare == herr = 0 /\ scn.hd.end.how = "barehttp"
         respFault == herr = 0 /\ ~bare /\ C09Faulty(scn)
+        \* the backend fails the RPC but names code 0 / no code: the failure keeps a non-OK code
+        \* (the grpc-status header's; the HTTP status's mapping; unknown for a Connect end-of-stream)
+        zeroCode == herr = 0 /\ ~bare /\ scn.hd.fault \in {"errcode0", "detailscode0"}
         code == CASE herr # 0 -> herr
                   [] bare -> BareHttpCode(scn, srv)
+                  [] zeroCode -> (IF scn.hd.fault = "errcode0" /\ ~Enveloped(srv.form) THEN 12 ELSE 2)
                   [] respFault -> 2                    \* some error; the oracle only demands non-OK
                   [] OTHER -> scn.hd.end.code
         nsent == CASE herr # 0 \/ bare -> 0
+                   [] zeroCode -> (IF Enveloped(srv.form) THEN SentCount(scn) ELSE 0)
                    [] respFault -> (IF SentCount(scn) >= 1 THEN SentCount(scn) - 1 ELSE 0)
                    [] OTHER -> SentCount(scn)
         sent == [i \in 1..nsent |-> ClientFrame(scn, srv, scn.hd.frames[i])]
         \* a client whose end must be in the headers gets no message bytes with an error
         shown == IF code # 0 /\ EndInHeaders(scn.cl.form) THEN <<>> ELSE sent
-        fromHandler == herr = 0 /\ ~bare /\ ~respFault
+        fromHandler == herr = 0 /\ ~bare /\ ~respFault /\ ~zeroCode
         end == IF code = 0
                THEN [NoEnd EXCEPT !.place = EndPlace(scn, srv, code, herr, Len(shown)), !.code = 0, !.detok = TRUE]
                ELSE ErrorEnd(scn, srv, code, herr, Len(shown), fromHandler)
